@@ -109,12 +109,19 @@ def check_ini(ctx, n, tag):
     g = ctx['rng']; dis = []
     for b in library_assumptions(): dis.append({'case': None, 'what': 'configparser differs from what model/Ini.v restates: ' + b})
     inis = [{'kind': 'ini', 'lines': gen_ini_lines(g)} for _ in range(n)]
-    res = sc.eval_results(tag, PRE_INI, ['(run_ini %s)' % coq_lines(c['lines']) for c in inis], chunk=100 if n > 200 else 40)
+    if ctx.get('thorough'):
+        # small scope, exhaustively: every file of up to 3 lines over a set of line shapes (header, option with either delimiter, indented and
+        # unindented continuation, blank, comment, stray text, repeated header / key, [Variables])
+        import itertools
+        shapes = ['[S]', '[S]', '[Variables]', 'k = v', 'k : w', ' k2=v', '  more', '\tx = y', '', '# c', ' ; c', 'stray', '[T] junk', '= v', 'K]=[v']
+        for n_ in (1, 2, 3):
+            for combo in itertools.product(shapes, repeat=n_): inis.append({'kind': 'ini', 'lines': list(combo), 'exhaustive': True})
+    res = sc.eval_results(tag, PRE_INI, ['(run_ini %s)' % coq_lines(c['lines']) for c in inis], chunk=300 if len(inis) > 1000 else (100 if n > 200 else 40))
     acc = 0
     for c, zs in zip(inis, res):
         m = dec_ini(zs); im = impl_ini(c['lines']); acc += m is not None
         if not compare(m, im): dis.append({'case': c, 'what': 'the lines %r: model %r, parser %r' % (c['lines'], m, im)})
-    return dis, {'ini_files': n, 'ini_accepted': acc, 'ini_with_continuation': sum(1 for c in inis if any(l[:1] in (' ', '\t') and l.strip() for l in c['lines']))}, inis
+    return dis, {'ini_files': len(inis), 'ini_exhaustive_small_scope': sum(1 for c in inis if c.get('exhaustive')), 'ini_accepted': acc, 'ini_with_continuation': sum(1 for c in inis if any(l[:1] in (' ', '\t') and l.strip() for l in c['lines']))}, inis
 
 
 # ------------------------------------------------------------------ placeholders (model/TextInterp.v)
